@@ -235,24 +235,63 @@ def tie_free(neurons, fix=True):
     return True
 
 
-def gen_neurons(r, nq, nt, unit, astyle, maxpts):
-    """nq query and nt target clouds with unique ids; targets are often exact-distance shifts of queries."""
+WEIRD_IDS = [0, -1, -7, 2 ** 31 + 5, 2 ** 32 + 1, 2 ** 40 + 3, 10 ** 15 + 7, 1, 2, 3]
+
+
+def assign_ids(r, qs, ts, src, idmode):
+    """ids are unique within each list only.  idmode: 'unique' (globally unique), 'shared' (targets reuse query ids:
+    a shifted / exact copy carries its original's id, other targets borrow unused query ids, some stay fresh —
+    partial overlaps), 'weird' (0, negative, > 2^31, > 2^32 ids; may also be shared)."""
+    pool = WEIRD_IDS + r.sample(range(4, 10 ** 6), 4) if idmode == 'weird' else r.sample(range(1, 10 ** 6), len(qs) + len(ts) + 2)
+    pool = list(dict.fromkeys(pool))
+    r.shuffle(pool)
+    qids = pool[:len(qs)]
+    fresh = pool[len(qs):]
+    used = set()
+    tids = []
+    for j in range(len(ts)):
+        i = None
+        if idmode in ('shared', 'weird') and r.random() < (0.75 if idmode == 'shared' else 0.4):
+            if src[j] is not None and qids[src[j]] not in used and r.random() < 0.8:
+                i = qids[src[j]]
+            else:
+                cand = [x for x in qids if x not in used]
+                i = r.choice(cand) if cand else None
+        if i is None:
+            i = next(x for x in fresh if x not in used)
+        used.add(i)
+        tids.append(i)
+    for n, i in zip(qs, qids):
+        n['id'] = i
+    for n, i in zip(ts, tids):
+        n['id'] = i
+
+
+def gen_neurons(r, nq, nt, unit, astyle, maxpts, idmode=None):
+    """nq query and nt target clouds (ids unique within each list, see `assign_ids`); targets are often
+    exact-distance shifts of queries, sometimes exact copies (same points, tangents and alphas)."""
+    idmode = idmode or r.choice(['unique', 'shared', 'shared', 'weird'])
     for _ in range(50):
-        ids = r.sample(range(1, 10 ** 6), nq + nt)
         qs = []
         for i in range(nq):
             qs.append(gen_cloud(r, r.choice([1, 2, 3, r.randint(1, maxpts), r.randint(2, maxpts)]), unit, astyle))
-        ts = []
+        ts, src = [], []
         for j in range(nt):
             k = r.random()
-            if k < 0.55 and qs:
-                ts.append(shifted(r, r.choice(qs), unit, astyle, r.choice(PYTH)))
+            if k < 0.5 and qs:
+                i = r.randrange(len(qs))
+                ts.append(shifted(r, qs[i], unit, astyle, r.choice(PYTH)))
+                src.append(i)
+            elif k < 0.58 and qs:
+                i = r.randrange(len(qs))
+                ts.append(dict(pts=[list(p) for p in qs[i]['pts']], vect=[list(v) for v in qs[i]['vect']],
+                               alpha=list(qs[i]['alpha'])))
+                src.append(i)
             else:
                 ts.append(gen_cloud(r, r.choice([1, 2, r.randint(1, maxpts), r.randint(2, maxpts)]), unit, astyle))
-        ns = qs + ts
-        for n, i in zip(ns, ids):
-            n['id'] = i
-        if tie_free(ns):
+                src.append(None)
+        assign_ids(r, qs, ts, src, idmode)
+        if tie_free(qs + ts):
             return qs, ts
     raise RuntimeError('could not generate a tie-free case')
 
@@ -526,6 +565,8 @@ def run_nblast(fn, qs, ts, cfg, smat, dtype='float64'):
               precision=cfg.get('precision', 64), n_cores=1, progress=False)
     if fn == 'allbyall':
         return NF.nblast_allbyall(ql, **kw)
+    if fn == 'nblastself':   # nblast(x): target=None means "against the queries themselves"
+        return NF.nblast(ql, None, scores=cfg['mode'], **kw)
     tl = navis.NeuronList([mk_dp(c, dtype) for c in ts])
     return NF.nblast(ql, tl, scores=cfg['mode'], **kw)
 
@@ -563,7 +604,12 @@ def self_bins(tab_obj, c):
 def case_nblast(ctx, case):
     fn, qs, ts, cfg, tab = case['fn'], case['q'], case['t'], case['cfg'], case['table']
     dtype = case.get('dtype', 'float64')
+    fn_call = fn
+    if fn == 'nblastself':
+        fn, ts = 'nblast', qs
     mode = cfg['mode'] if fn == 'nblast' else 'forward'
+    shared = len({c['id'] for c in qs} & {c['id'] for c in ts}) if fn_call == 'nblast' else 0
+    ctx.count('nblast_ids', f"{fn_call}/shared={min(shared, 2)}/" + ('weird' if any(c['id'] <= 0 or c['id'] > 2 ** 31 for c in qs + ts) else 'plain'))
     smat = smat_arg(tab)
     prec = cfg.get('precision', 64)
     tol_out = {64: Fraction(0), 32: Fraction(1, 2 ** 22), 16: Fraction(1, 2 ** 9)}[prec]
@@ -575,9 +621,9 @@ def case_nblast(ctx, case):
     ctx.count('nblast', f"{fn}/{mode}/{'norm' if norm else 'raw'}/{'alpha' if ua else 'noalpha'}/{tab['kind']}/"
                         f"{'limit' if bound else 'nolimit'}/p{prec}/{dtype}")
     try:
-        df = run_nblast(fn, qs, ts, cfg, smat, dtype)
+        df = run_nblast(fn_call, qs, ts, cfg, smat, dtype)
     except Exception as e:   # noqa
-        ctx.oracle(False, f'{fn} raised {type(e).__name__}: {e}', case)
+        ctx.oracle(False, f'{fn_call} raised {type(e).__name__}: {e}', case)
         return
     both = mode == 'both'
     # ---- the definition, evaluated by the Lean model, compared in Rat by the driver --------------------------
@@ -680,7 +726,7 @@ def case_nblast(ctx, case):
 
 def gen_nblast(ctx, r, force=None):
     force = force or {}
-    fn = force.get('fn') or r.choice(['nblast', 'nblast', 'nblast', 'allbyall'])
+    fn = force.get('fn') or r.choice(['nblast', 'nblast', 'nblast', 'nblast', 'allbyall', 'nblastself'])
     tkind = force.get('tkind') or r.choice(['auto', 'df', 'df'])
     ua = force.get('ua', r.random() < 0.45)
     dtype = 'float32' if r.random() < 0.15 else 'float64'
@@ -688,7 +734,7 @@ def gen_nblast(ctx, r, force=None):
     astyle = r.choice(['any', 'sq', 'one']) if ua else r.choice(['any', 'one'])
     nq = r.randint(1, 3)
     nt = r.randint(1, 3) if fn == 'nblast' else 0
-    qs, ts = gen_neurons(r, nq, nt, unit, astyle, ctx.budget(8, 20))
+    qs, ts = gen_neurons(r, nq, nt, unit, astyle, ctx.budget(8, 20), force.get('idmode'))
     tab = dict(kind='auto') if tkind == 'auto' else gen_table(r)
     x = r.random()
     if x < 0.45:
@@ -702,7 +748,7 @@ def gen_nblast(ctx, r, force=None):
     if limit == 'auto' and tab['kind'] == 'df' and len(tab['rb']) < 3:
         limit = None   # a one-bin table has no finite boundary to derive the limit from
     p = r.random()
-    cfg = dict(mode=r.choice(['forward', 'mean', 'min', 'max', 'both']) if fn == 'nblast' else 'forward',
+    cfg = dict(mode=r.choice(['forward', 'mean', 'min', 'max', 'both']) if fn != 'allbyall' else 'forward',
                normalized=r.random() < 0.6, use_alpha=ua, limit_dist=limit,
                precision=64 if p < 0.8 else (32 if p < 0.95 else 16))
     return dict(fn=fn, q=qs, t=ts, cfg=cfg, table=tab, dtype=dtype)
@@ -911,7 +957,7 @@ def gen_cases(ctx):
     combos = list(itertools.product(['forward', 'mean', 'min', 'max', 'both'], [True, False], [True, False], ['auto', 'df']))
     r.shuffle(combos)
     for (mode, norm, ua, tk) in combos[:ctx.budget(20, 40)]:
-        c = gen_nblast(ctx, r, dict(fn='nblast', tkind=tk, ua=ua))
+        c = gen_nblast(ctx, r, dict(fn='nblast', tkind=tk, ua=ua, idmode='shared'))
         c['cfg']['mode'], c['cfg']['normalized'] = mode, norm
         yield 'nblast', c
     for _ in range(ctx.budget(450, 10000)):
